@@ -418,7 +418,7 @@ func c06ReqString(r *Rng, word string) string {
 }
 
 func c06Label(r *Rng) string {
-	return []string{"A", "calib", "state 7", " ", "  x", "UNPAUSE", "Zz~", "stop", "a,b"}[r.Intn(9)]
+	return []string{"A", "calib", "state 7", " ", "  x", "UNPAUSE", "Zz~", "stop", "a,b", "two\nlines", "cr\r"}[r.Intn(11)]
 }
 
 func c06Invalid(r *Rng) string {
@@ -602,7 +602,7 @@ func c06Count(quick, thorough int) func(string) int {
 }
 
 func init() {
-	caseGens["C06"] = caseGen{count: c06Count(300, 4000), gen: func(r *Rng, tier string, idx int) (string, func() string) {
+	caseGens["C06"] = caseGen{count: c06Count(1000, 6000), gen: func(r *Rng, tier string, idx int) (string, func() string) {
 		c := genC06(r, tier, idx)
 		return c.input(), c.run
 	}}
